@@ -234,7 +234,7 @@ def witness_crate(d: Decl, extra_inputs=()):
                     '                let r = <%s as serde::Deserialize>::deserialize_in_place(&mut serde_json::Deserializer::from_str(&doc), &mut place);\n' % S +
                     '                let now = place.into_inner();\n'
                     '                let real_ip = format!("{} / existing value still valid: {}", match &r { Ok(()) => format!("Ok({:?})", now), Err(_) => "Err".to_string() }, %s::valid(&now));\n' % R +
-                    '                report("Deserialize", &format!("deserialize_in_place of JSON {} into an existing {:?}", doc, o), setting, real_ip, format!("{} / existing value still valid: true", expected_de), n);\n'
+                    '                report("DeserializeInPlace", &format!("deserialize_in_place of JSON {} into an existing {:?}", doc, o), setting, real_ip, format!("{} / existing value still valid: true", expected_de), n);\n'
                     '            }\n        }\n    } }\n')
         if d.family == 'string':
             # newtype-protocol documents that hand the text over as UTF-8 bytes
@@ -299,7 +299,7 @@ def witness_crate(d: Decl, extra_inputs=()):
         main.append('        let cands: Vec<(%s, &str)> = vec![%s];\n' % (t, ', '.join('(%s, %s)' % (c, json.dumps(c)) for c in cands)))
         main.append('        for (x, label) in cands { check_one(x, &format!("{} = {:?}", label, x), &setting, &mut n); }\n    }\n')
     elif d.family == 'string':
-        main.append('    let alphabet = [" ", "a", "A", "\\u{df}", "\\u{130}", "\\u{3a3}", "\\u{a0}", "-", "@", "\\u{1c6}", "\\t", "_", "7", "\\u{1c5}", "\\u{1f88}"];\n')
+        main.append('    let alphabet = [" ", "a", "A", "\\u{df}", "\\u{130}", "\\u{3a3}", "\\u{a0}", "-", "@", "\\u{1c6}", "\\t", "_", "7", "\\u{1c5}", "\\u{1f88}", "\\u{feff}", "\\u{2003}", "\\u{200b}"];\n')
         main.append('    let mut cands: Vec<String> = vec![String::new()];\n'
                     '    for a in alphabet { cands.push(a.to_string()); for b in alphabet { cands.push(format!("{a}{b}")); for c in alphabet { cands.push(format!("{a}{b}{c}")); } } }\n'
                     '    for n in [4usize, 5, 7, 8, 9, 19, 20, 21, 22] { cands.push("x".repeat(n)); cands.push("\\u{df}".repeat(n)); cands.push(format!(" {} ", "Q".repeat(n))); }\n')
